@@ -346,6 +346,43 @@ pub mod authenticator {
     //@ extract auth impl Authenticator
     //@   only store store_mut aaguid choose_algorithm check_user
     //@   external_body choose_algorithm
+    impl<S, U> Authenticator<S, U> {
+        // stage A: extension processing assumed (refined by the extensions stage)
+        #[verifier::external_body]
+        pub(super) fn get_extensions(&self, passkey: &Passkey, request: Option<passkey_types::ctap2::get_assertion::ExtensionInputs>, uv: bool) -> Result<GetExtensionOutputs, StatusCode> { unimplemented!() }
+    }
+    pub(super) struct GetExtensionOutputs {
+        pub signed: Option<passkey_types::ctap2::get_assertion::SignedExtensionOutputs>,
+        pub unsigned: Option<passkey_types::ctap2::get_assertion::UnsignedExtensionOutputs>,
+    }
+    mod get_assertion {
+        use super::*;
+        use crate::p256::ecdsa::SigningKey;
+        use crate::passkey_types::{
+            ctap2::{
+                get_assertion::{Request, Response},
+                AuthenticatorData, Ctap2Error, Flags, StatusCode,
+            },
+            webauthn::PublicKeyCredentialUserEntity,
+        };
+        use crate::{private_key_from_cose_key, Authenticator, CredentialStore, UserValidationMethod};
+        // the lookup arguments the ceremony must use: the allow list when present and non-empty, else none
+        pub open spec fn allow_ids(input: Request) -> Option<Seq<PublicKeyCredentialDescriptor>> {
+            match input.allow_list { Some(l) => if l@.len() > 0 { Some(l@) } else { None }, None => None }
+        }
+        // the credential shown for consent = the first one the store lists
+        pub open spec fn shown_item<S: CredentialStore>(st: S, input: Request) -> Option<S::PasskeyItem> {
+            match st.spec_find(allow_ids(input), input.rp_id@) { Ok(v) => if v.len() > 0 { Some(v[0]) } else { None }, Err(_) => None }
+        }
+        //@ source ga passkey-authenticator/src/authenticator/get_assertion.rs
+        //@ extract ga impl Authenticator
+        //@   only get_assertion
+        //@   rule R6
+        //@   rule R12b
+        //@   rule R14 check_user
+        //@   rule R15
+        //@   rule R16
+    }
 }
 pub use authenticator::{Authenticator, CredentialIdLength};
 
